@@ -18,7 +18,7 @@ use tokio::sync::{mpsc, Mutex};
 pub static DEF: PropDef = PropDef {
     id: "C06",
     level: "exploration",
-    rule: "(a) rows of every signed kind are generated and signed with the library's own sign(); for each, candidate rows B != A are derived by moving bytes across every pair of adjacent variable-length fields, toggling optional fields while keeping the hashed byte stream, re-reading the stream as another kind, and (control) editing one field; B carries A's signature and key and B.verify() must fail. (b) every row stored by a replication workload is re-verified from the snapshot. (c) digests of rows crafted for a running instance's key are submitted as identity challenges to the real inbound query handler and the answer is tried as the row's signature. non-trivial = pair differing only by a boundary move, an optional-field toggle or the kind; distinct = (kind, mutation class, lengths)",
+    rule: "(a) rows of every signed kind are generated and signed with the library's own sign(); for each, candidate rows B != A are derived by moving bytes across every pair of adjacent variable-length fields, toggling optional fields while keeping the hashed byte stream, re-reading the stream as another kind, and (control) editing one field; B carries A's signature and key and B.verify() must fail. (b) every row stored by a replication workload is re-verified from the snapshot. (c) digests of rows crafted for a running instance's key are submitted as identity challenges to the real inbound query handler and the answer is tried as the row's signature. non-trivial = pair differing only by a boundary move, an optional-field toggle or the kind; distinct = (kind, mutation class, lengths) Also: other spellings of the same JSON value (whitespace, key order, duplicate key, unicode escape) under the same signature.",
     assumptions: &[
         "existential unforgeability of Ed25519 and collision resistance of BLAKE3 are out of reach of runtime monitoring and are assumed; what is decided is the encoding of rows into signed bytes and the peer-reachable signing requests",
     ],
